@@ -13,6 +13,7 @@ RULE = ("seeded histories against the real HTTP storage server resource (klein/t
         "upload's secret/empty/surplus/correct), state hashed before and after each; C31: storage histories (create, drawn-chunk writes incl. conflicting ones, abort, "
         "range reads past the end, list, lease, mutable read-test-write, reads, listing) executed through HTTP on one server and directly on a twin, results and share "
         "directories compared after every step; non-trivial = >=3 probe kinds; distinct = probe-count fingerprint")
+RULE += "; plus another client's create request naming shares of an upload in progress, with a drawn Accept header"
 TECHNIQUE = "deterministic simulation: seeded request histories against in-memory HTTP server/client pair with simulated reactor; twin-server differential oracle"
 LEVEL_TEXT = "seeded search over request histories; sampling, not enumeration"
 LEVEL_NOTE = ("real: storage.http_server.HTTPServer (klein routes, authorization decorator, CBOR validation), storage.http_client.StorageClient*, StorageServer; "
